@@ -61,7 +61,24 @@ def gen_instance(rng, big=False):
     A = [[0 if rng.random() < pz else rng.randint(lo, hi) for _ in range(n)] for _ in range(m)]
     x0 = [rng.randint(0, u[j]) for j in range(n)]
     style = rng.random()
-    if fam == "implicit":
+    if fam == "implicit" and len(ints) >= 2 and rng.random() < 0.6:
+        # k*x_j <= k-1 keeps x_j fractional (< 1) in the relaxation, x_i + k*x_j <= k then keeps x_i <= 1 at the LP optimum while
+        # integer points with x_j = 0 reach x_i = k: the root "looks binary" but the integers are not binary
+        i, j = rng.sample(ints, 2)
+        k = rng.choice([2, 2, 3])
+        x0 = [0] * n
+        r1 = [0] * n
+        r1[j] = k
+        r2 = [0] * n
+        r2[i], r2[j] = 1, k
+        A = [r1, r2] + [[rng.choice([0, 0, 1]) if t not in (i, j) else 0 for t in range(n)] for _ in range(max(0, m - 2))]
+        b = [k - 1, k] + [rng.choice([1, 2, 3]) for _ in range(max(0, m - 2))]
+        cc = [rng.choice([0, 0, 1]) for _ in range(n)]
+        cc[i], cc[j] = 1, k + rng.choice([1, 2])
+        mn = rng.random() < 0.5
+        implicit_c = [-v for v in cc] if mn else cc
+        implicit_min = mn
+    elif fam == "implicit":
         # rows like x_i + x_k <= 1 keep the LP relaxation of the integer variables inside [0,1] without explicit x_j <= 1 rows
         x0 = [0] * n
         if ints:
@@ -80,6 +97,7 @@ def gen_instance(rng, big=False):
     else:
         b = [rng.randint(-4, 9) for _ in range(m)]
     c = [rng.randint(-5, 5) if rng.random() > 0.15 else 0 for _ in range(n)]
+    implicit_c = locals().get("implicit_c")
     if fam != "implicit" and rng.random() < 0.75:
         # packing / covering flavour (fractional LP vertices): maximise profits under positive weights, or minimise costs with >= rows
         minimize = rng.random() < 0.5
@@ -92,7 +110,9 @@ def gen_instance(rng, big=False):
             b = [-v for v in b]
     else:
         minimize = rng.random() < 0.5
-    if ints and rng.random() < 0.15:
+    if implicit_c is not None:
+        c, minimize = implicit_c, locals()["implicit_min"]
+    if ints and rng.random() < 0.15 and implicit_c is None:
         # parity rows: k*(x_i +- x_j) = odd number  (relaxation feasible, no integer point) or <= odd
         i = rng.choice(ints)
         j = rng.choice(ints)
@@ -185,6 +205,10 @@ EDGE = [
     ({"c": [-1, -1], "A": [[2, 2], [1, 0], [0, 1], [-3, 1]], "b": [1, 3, 3, 0], "ints": [0, 1], "minimize": True},
      [{}, {"heuristics": False}]),
     ({"c": [1, -2], "A": [[2, -2], [1, 0], [0, 1]], "b": [1, 5, 5], "ints": [0, 1], "minimize": True}, [{}, {"lns_iterations": 3}]),
+    # root relaxation (1, 1/2) lies in [0,1]^2 but the integer optimum is (2, 0): tightening to binary would lose it
+    ({"c": [1, 3], "A": [[1, 2], [0, 2], [1, 0], [0, 1]], "b": [2, 1, 5, 5], "ints": [0, 1], "minimize": False},
+     [{}, {"heuristics": False}, {"lns_iterations": 3}, {"warm_start": [1.0, 0.0]}]),
+    ({"c": [-1, -3], "A": [[1, 2], [0, 2], [1, 0], [0, 1]], "b": [2, 1, 5, 5], "ints": [0, 1], "minimize": True}, [{}, {"heuristics": False}]),
     # infeasible integer problem with a feasible relaxation: 2x = 1
     ({"c": [1], "A": [[2], [-2], [1]], "b": [1, -1, 3], "ints": [0], "minimize": True}, [{}, {"warm_start": [0.5]}]),
     # infeasible relaxation; unbounded relaxation (continuous variable without box)
@@ -215,7 +239,7 @@ def _kwargs(inst, var):
     return kw
 
 
-def run_impl(inst, var):
+def run_impl(inst, var, timeout=5):
     """-> dict(status, solution, objective, nodes, solutions, lns=record | None) or dict(fail=...)"""
     import solvor.milp as M
 
@@ -230,19 +254,36 @@ def run_impl(inst, var):
         rec["passes_is_feasible"] = ans is None or (len(ans) == len(c) and bool(M._is_feasible(ans, A, b, int_set, eps)))
         return out
 
-    M._lns_improve = wrapped
+    # float-level tie information (used only to decide whether a disagreement on a tie of the exact model can be round-off):
+    # fractional parts compared by _most_fractional, heap keys compared by heappush
+    ties = {"mf": False, "heap": False}
+    orig_mf, orig_push = M._most_fractional, M.heappush
+
+    def mf(solution, int_set, eps):
+        fr = [abs(solution[j] - round(solution[j])) for j in int_set]
+        fr = [f for f in fr if f > eps / 2]
+        if any(a != b and abs(a - b) < 1e-7 for a in fr for b in fr):
+            ties["mf"] = True
+        return orig_mf(solution, int_set, eps)
+
+    def push(heap, item):
+        if any(k[0] != item[0] and abs(k[0] - item[0]) < 1e-7 for k in heap):
+            ties["heap"] = True
+        return orig_push(heap, item)
+
+    M._lns_improve, M._most_fractional, M.heappush = wrapped, mf, push
     try:
         res = guarded(M.solve_milp, list(inst["c"]), [list(r) for r in inst["A"]], list(inst["b"]), list(inst["ints"]),
-                      timeout=10, **_kwargs(inst, var))
+                      timeout=timeout, **_kwargs(inst, var))
     finally:
-        M._lns_improve = orig
+        M._lns_improve, M._most_fractional, M.heappush = orig, orig_mf, orig_push
     if res[0] != "ok":
         return {"fail": list(res), "lns": rec or None}
     r = res[1]
     sol = None if r.solution is None else [float(v) for v in r.solution]
     sols = None if r.solutions is None else [[float(v) for v in s] for s in r.solutions]
     return {"status": r.status.name, "solution": sol, "objective": float(r.objective), "nodes": int(r.iterations),
-            "solutions": sols, "lns": rec or None}
+            "solutions": sols, "lns": rec or None, "float_ties": ties}
 
 
 # ---------------------------------------------------------------------------------- exact oracle (independent of the model)
@@ -489,7 +530,11 @@ def run_port(inst, var, out):
     if res[0] != "ok":
         return None, [f"replica failed: {res[1:]}"]
     r, fr = res[1]
-    return r, fr.why
+    # exact ties of the model that the floats reproduce exactly (equal fractional parts / equal heap keys as floats) are not fragile
+    ft = out.get("float_ties", {"mf": True, "heap": True})
+    why = [w for w in fr.why if not (w == "most_fractional: equal fractional parts" and not ft["mf"])
+           and not (w == "heap: equal bounds from different parents" and not ft["heap"])]
+    return r, why
 
 
 def lns_q(v):
@@ -574,7 +619,14 @@ def coq_case(inst, var, out):
 
 
 # ---------------------------------------------------------------------------------- shrinking
-def shrink(inst, var, still_bad):
+def shrink(inst, var, still_bad, budget_s=25.0):
+    import time
+    t_end = time.time() + budget_s
+    _sb = still_bad
+
+    def still_bad(i, v):  # noqa: F811  (time-boxed: a hanging implementation makes every probe cost its timeout)
+        return time.time() < t_end and _sb(i, v)
+
     cur = json.loads(json.dumps({k: inst[k] for k in ("c", "A", "b", "ints", "minimize")}))
     cur["x0"] = inst.get("x0", [0] * len(inst["c"]))
     cur["family"] = inst.get("family", "?")
@@ -608,7 +660,7 @@ def _bad(inst, var):
         if int_box(inst) is None:
             return False
         tr = truth(inst)
-        out = run_impl(inst, var)
+        out = run_impl(inst, var, timeout=3)
         return judge(inst, var, out, tr) is not None
     except Exception:  # noqa: BLE001
         return False
@@ -654,7 +706,10 @@ def run(ctx: Ctx):
         "'the answer passes _is_feasible' is checked on every run with the code's own _is_feasible and by MilpInst.lns_answer_ok in coqc",
         "set iteration order of int_set: integer indices are passed sorted and duplicate-free (small non-negative ints iterate in "
         "increasing order in CPython); `evaluations` (LP iteration total) is not compared; node count compared for heuristics=False",
-        "oracle: integer variables must have explicit upper-bound rows (the enumeration box is read off them)",
+        "oracle: the enumeration box of the integer variables is read off explicit single-variable rows (else an exact LP bound)",
+        "eps = 0: histogram 'eps0_same_result' counts the explored runs on which the model with eps = 0 (the instance for which the C03 "
+        "kernel statements are formulated) returns the same Result as with eps = 1e-6; differing runs (warm starts inside the tolerance) "
+        "are outside the exact corollary",
     ]
     big = ctx.tier == "thorough"
     n_inst = ctx.budget(320, 5000)
@@ -672,7 +727,7 @@ def run(ctx: Ctx):
     results = pmap(_work, items, chunksize=2)
 
     coq_cases, metas = [], []
-    lns_cases = []
+    spec_cases, spec_metas, gate_cases, gate_metas = [], [], [], []
     for (inst, variants), (tr, outs, verdicts, ports, grp) in zip(items, results):
         ctx.count("family", inst.get("family", "?"))
         ctx.count("exact_verdict", tr[0])
@@ -706,6 +761,8 @@ def run(ctx: Ctx):
                                   "about the LNS oracle; heuristic incumbents are not feasibility-checked)",
                                   {"kind": "milp", **inst, "options": var, "impl": out})
                     continue
+            spec_cases.append(coq_case(inst, var, out))
+            spec_metas.append((inst, var, out))
             nontrivial = out["nodes"] >= 2 or (lns is not None) or (out["solutions"] is not None and len(out["solutions"]) > 1)
             if nontrivial:
                 ctx.nontriv(json.dumps([inst["c"], inst["A"], inst["b"], inst["ints"], inst["minimize"], var], sort_keys=True, default=str))
@@ -722,13 +779,38 @@ def run(ctx: Ctx):
             ctx.traces_validated += 1
             coq_cases.append(coq_case(inst, var, out))
             metas.append((inst, var, out))
+        gate_cases.append(coq_case(inst, _norm_var({}), {"status": "OPTIMAL", "solution": None, "objective": 0.0, "nodes": 0, "solutions": None}))
+        gate_metas.append(inst)
         if grp and not reported:
             var, what = grp
             ctx.violation(f"solve_milp: {what}", {"kind": "milp-group", **inst, "options": var, "all_options": variants,
                                                    "impl": outs, "exact_verdict": [str(v) for v in tr[:2]]})
 
+    # the implementation's results judged by the boolean specification proved sound in Coq (independent of the model's answer)
+    spec_bad = ctx.coq_check("spec", IMPORTS, "milp_case", "impl_spec_check", spec_cases, shard=200)
+    for i in spec_bad[:3]:
+        inst, var, out = spec_metas[i]
+        ctx.violation("spec_check (proved sound: C04_spec_check_sound) rejects the implementation's result: a returned point fails "
+                      "A x <= b + eps / x >= -eps / integrality within eps, or objective != c.x", {"kind": "milp", **inst, "options": var, "impl": out})
+    # the boolean hypotheses of the theorems (milp_input_ok, LP kernel = simplex model) on every explored input
+    gate_bad = ctx.coq_check("gate", IMPORTS, "milp_case", "gate_check", gate_cases, shard=100)
+    ctx.count("theorem_hypotheses_hold", "yes", len(gate_cases) - len(gate_bad))
+    if gate_bad:
+        ctx.count("theorem_hypotheses_hold", "no", len(gate_bad))
+        inst = gate_metas[gate_bad[0]]
+        ctx.violation("milp_input_ok is false on an explored input (eps range, dimensions / sorted integer indices, or a non-zero "
+                      "coefficient of absolute value <= eps): the C04 theorems do not cover it",
+                      {"kind": "milp", **inst, "options": _norm_var({}), "lemma": "Cases/C04/gate_*.v corr"}, no_input=True)
     failing = ctx.coq_check("corr", IMPORTS, "milp_case", "corr_check", coq_cases, shard=40)
     disagree = [metas[i] for i in failing]
+    # exact arithmetic with eps = 0 takes the same decisions as eps = 1e-6 (counted, not a failure: cases where it does not are
+    # outside the eps = 0 corollary C04_exact_simplex_corollary)
+    ok_cases = [c for i, c in enumerate(coq_cases) if i not in set(failing)]
+    diff0 = ctx.coq_check("eps0", IMPORTS, "milp_case", "eps0_check", ok_cases, shard=40)
+    ctx.count("eps0_same_result", "yes", len(ok_cases) - len(diff0))
+    ctx.count("eps0_same_result", "no", len(diff0))
+    # coq_check counts a shard with failing indices as not discharged; these shards are measurements, not obligations
+    ctx.obligations -= len({i // 40 for i in diff0})
     lns_bad = ctx.coq_check("lnsok", IMPORTS, "milp_case", "lns_answer_ok", [c for c, m in zip(coq_cases, metas) if m[2].get("lns")], shard=200)
     if lns_bad and not ctx.violations:
         ctx.violation("lns_answer_ok: a recorded _lns_improve answer fails the model's is_feasible", {"lemma": "Cases/C04/lnsok_*.v corr"}, no_input=True)
